@@ -34,6 +34,15 @@ LIB = """
   fn: function(a, b=self.v) a + b,
   trace: std.trace('lib-trace', 7),
   depthy: std.foldl(function(a, i) [a], std.range(1, 60), []),
+  inh: {assert self.n > 0 : 'inh'} + {n: 0},
+  inh2: {assert self.n > 0 : 'inh2', n: 1} + {m: 1} + {n: self.m - 1},
+  inh_err: {assert error 'inh-err'} + {n: 0},
+  inh_deep: {assert $.deep(self.n) > 0 : 'inh-deep'} + {n: 300},
+  inh_ok: {assert self.n > 0 : 'never2'} + {n: 2},
+  counted: {a: 1, b: 2, c: 3, count: std.length(std.objectFields(self)), has_a: std.objectHas(self, 'a'),
+            names: std.objectFields(self), total: std.foldl(function(acc, k) acc + (if k == 'a' || k == 'b' || k == 'c' then self[k] else 0), std.objectFields(self), 0)},
+  late: {base: 10, derived: self.base + 1, twice: self.derived * 2, me: std.length(self)},
+  arr_of_obj: [{i: i, sq: self.i * self.i} for i in [1, 2, 3]],
 }
 """
 
@@ -81,8 +90,59 @@ REQS = [
     ("analyze_err", "L.v + undefined_variable"),
     ("own_cycle", "local a = b + L.v, b = a; a"),
     ("assert_expr", "assert L.v == 0 : 'assert-expr'; 1"),
+    ("inh_n", "L.inh.n"),
+    ("inh", "L.inh"),
+    ("inh_eq", "L.inh == L.inh"),
+    ("inh_str", "std.toString(L.inh)"),
+    ("inh2_m", "L.inh2.m"),
+    ("inh2", "L.inh2"),
+    ("inh_err", "L.inh_err.n"),
+    ("inh_deep", "L.inh_deep.n"),
+    ("inh_ok", "L.inh_ok"),
+    ("inh_ext", "(L.inh {n: 5}).n"),
+    ("inh_ok_ext", "(L.inh_ok {n: -1}).n"),
+    ("counted", "L.counted"),
+    ("counted_count", "L.counted.count"),
+    ("counted_total", "L.counted.total"),
+    ("counted_rm", "std.objectRemoveKey(L.counted, 'a')"),
+    ("counted_rm_count", "std.objectRemoveKey(L.counted, 'a').count"),
+    ("counted_rm_names", "std.objectRemoveKey(L.counted, 'b').names"),
+    ("counted_rm_has", "std.objectRemoveKey(L.counted, 'a').has_a"),
+    ("counted_rm_total", "std.objectRemoveKey(L.counted, 'c').total"),
+    ("counted_rm_ext", "(std.objectRemoveKey(L.counted, 'a') + {z: 1}).count"),
+    ("counted_ext", "(L.counted + {d: 4}).count"),
+    ("counted_ext_names", "(L.counted {d:: 4}).names"),
+    ("counted_patch", "std.mergePatch(L.counted, {a: null}).b"),
+    ("counted_values", "std.objectValues(L.counted)"),
+    ("counted_kv", "std.objectKeysValues(L.counted)[3]"),
+    ("counted_mapkey", "std.mapWithKey(function(k, v) v, L.counted).count"),
+    ("late", "L.late"),
+    ("late_twice", "L.late.twice"),
+    ("late_ext", "(L.late {base: 1}).twice"),
+    ("late_ext_me", "(L.late {extra: 1}).me"),
+    ("late_rm", "std.objectRemoveKey(L.late, 'twice')"),
+    ("late_rm_me", "std.objectRemoveKey(L.late, 'base').me"),
+    ("late_super", "(L.late {derived: super.derived + 100}).twice"),
+    ("arr_of_obj", "L.arr_of_obj"),
+    ("arr_of_obj_ext", "[o {i: 10} for o in L.arr_of_obj][1].sq"),
+    ("arr_of_obj_rm", "[std.objectRemoveKey(o, 'i') for o in L.arr_of_obj][0]"),
 ]
 STACKS = [None, 30, 120, 250, 500, 2000]
+
+
+def _clusters():
+    groups = {}
+    for i, (_, src) in enumerate(REQS):
+        for m in set(re.findall(r"L\.([a-z_0-9]+)", src)):
+            groups.setdefault(m, []).append(i)
+    out = [v for v in groups.values() if len(v) >= 3]
+    # fields that share state through self.shared / self.deep
+    out.append([i for i, (_, src) in enumerate(REQS) if re.search(r"L\.(shared|use|deep|nested|inh_deep)", src)])
+    out.append([i for i, (_, src) in enumerate(REQS) if re.search(r"L\.inh", src)])
+    return out
+
+
+CLUSTERS = _clusters()
 
 
 def request_lines(slot, via, src, stack, manifest=True, again=False, gc=None):
@@ -232,8 +292,11 @@ def shard(args):
         for _ in range(n):
             k = rng.randint(1, 8)
             h = []
+            # half of the histories stay within one cluster of requests that touch the same library field
+            cluster = rng.choice(CLUSTERS) if rng.random() < 0.5 else None
             for _ in range(k):
-                h.append((rng.randrange(len(REQS)), rng.choice(STACKS), rng.random() < 0.8, rng.random() < 0.3,
+                ri = rng.choice(cluster) if cluster and rng.random() < 0.85 else rng.randrange(len(REQS))
+                h.append((ri, rng.choice(STACKS), rng.random() < 0.8, rng.random() < 0.3,
                           rng.random() < 0.2))
             hists.append((rng.choice(["import", "ext"]), h))
         for via, h in hists:
@@ -259,6 +322,10 @@ def run(tier, seed):
         [("boom", None), ("boom", None), ("boom_obj_a", None), ("boom_obj", None)],
         [("use600", None), ("deep450", 250), ("shared2", 2000), ("nested", None)],
         [("cyc", None), ("cyc_obj", None), ("lazy", None), ("lazy0", None)],
+        [("inh_n", None), ("inh", None), ("inh_n", None), ("inh_ext", None)],
+        [("inh_deep", 120), ("inh_deep", None), ("inh_err", None), ("inh_err", None)],
+        [("counted_count", None), ("counted_rm_count", None), ("counted_ext", None), ("counted", None)],
+        [("late", None), ("late_rm_me", None), ("late_ext_me", None), ("late_twice", None)],
     ]
     perms = []
     for pool in pools:
